@@ -68,9 +68,9 @@ fn walk(items: &[syn::Item], file: &str, module: &str, out: &mut Vec<String>) {
         match it {
             syn::Item::Struct(s) => {
                 out.push(format!(
-                    "{{\"kind\":\"struct\",\"file\":{},\"module\":{},\"name\":{},\"generics\":{},\"attrs\":{},\"tuple\":{},\"fields\":{}}}",
+                    "{{\"kind\":\"struct\",\"file\":{},\"module\":{},\"name\":{},\"generics\":{},\"attrs\":{},\"tuple\":{},\"unit\":{},\"fields\":{}}}",
                     esc(file), esc(module), esc(&s.ident.to_string()), esc(&toks(&s.generics)), attrs_json(&s.attrs),
-                    matches!(s.fields, syn::Fields::Unnamed(_)), fields_json(&s.fields)
+                    matches!(s.fields, syn::Fields::Unnamed(_)), matches!(s.fields, syn::Fields::Unit), fields_json(&s.fields)
                 ));
             }
             syn::Item::Enum(e) => {
